@@ -10,4 +10,4 @@ rsync -a --exclude .git --exclude 'logs' --exclude 'storage0' /repo/ "$scratch/"
 if ! (cd "$scratch" && patch -p1 -s --no-backup-if-mismatch < "$patch"); then
   echo "STALE patch does not apply: $patch"; exit 3
 fi
-/verif/bin/govc verify -repo "$scratch" -property "$prop" -noreplay "$@"
+/verif/bin/govc verify -repo "$scratch" -property "$prop" -replays "${REPLAYS:-/tmp/vf-replays}" -known "${KNOWN:-/verif/known_findings.jsonl}" "$@"
